@@ -421,6 +421,22 @@ fn mutate_one(x: &Xorb, mut b: Vec<u8>, m: &str) -> Vec<u8> {
         "random" => {
             b = unhex(p[1]);
         },
+        "sethash" => {
+            // the xorb hash recorded in the footer replaced by the hash that `otherhash` claims: a footer that describes the chunks
+            // exactly but attests another object's hash
+            let end = *x.cas.info.chunk_boundary_offsets.last().unwrap() as usize;
+            let old = x.hash.as_bytes().to_vec();
+            let new = compute_data_hash(b"zzz");
+            let mut i = end;
+            while i + 32 <= b.len() {
+                if b[i..i + 32] == old[..] {
+                    b[i..i + 32].copy_from_slice(new.as_bytes());
+                    i += 32;
+                } else {
+                    i += 1;
+                }
+            }
+        },
         _ => panic!("mutation"),
     }
     b
